@@ -5,6 +5,7 @@ Generated string syntax is placed in real test cases and run through the real CL
   * the argv received by the probe in `% PROBE OUT CTRL ARG...` / `run ( % PROBE ... )`,
   * the elements of `def list LK = ...` (spliced into a probe's argv, and joined inside soft quotes),
   * `def string SK = SYNTAX` (observed through a file),
+  * the name of the file created by `file -rel-act SYNTAX = 'cK'` (FILE-NAME of a PATH is a STRING),
   * syntax-error reports for unterminated quotes / here-documents / unquoted reserved words.
 Oracle: vf/models/strings.py (independent reader of the documented syntax, reads the whole case text), cross
 checked in every case against the value the generator knows by construction.
@@ -43,6 +44,9 @@ ASSUMPTIONS = [
     'here-document header `<<MARKER` is followed directly by the line end; MARKER is a word of letters, digits, `_`, `-`; '
     'markers with other characters (`E.O.F`, `EOF!`, `é`) only in a small dedicated group (see finding H1)',
     'white space = blank and tab; no CR, FF, NUL characters',
+    'as FILE-NAME of a PATH: only strings that denote a plain non-empty file name, and no naked option-like word '
+    '(`file -rel-act -x = ...` is rejected as an unexpected option; the manual does not say so, but an option is not a '
+    'file name); only the 15-symbol alphabet',
     '`:>` is always followed by white space or the line end',
     'a reserved word is either entirely unquoted (=> not a string) or all its characters are quoted (=> a string); '
     'forms like (\'\' or &"&" are not generated',
@@ -84,6 +88,7 @@ _REF_UNICODE = re.compile(r'@\[(\w+)\]@', re.UNICODE)
 
 BATCH = 12
 CTXS = ('file', 'argv', 'list', 'defstr')
+CTXS5 = CTXS + ('fname',)  # + the FILE-NAME (a STRING) of a PATH: `file -rel-act SYNTAX = 'cK'`
 
 # next-token kinds: name -> (source tokens after the string, their elements by construction)
 POSTS = {
@@ -249,6 +254,19 @@ def has_naked_hash(fr):
     return any(k == 'N' and '#' in r for k, r in fr)
 
 
+def fname_ok(fr):
+    """may the string be used as FILE-NAME of `file -rel-act FILE-NAME = ...` ? (a plain, non-empty file name; not a
+    naked option-like word - an option is not a file name; not a whole-token list reference)"""
+    if is_reserved_token(fr):
+        return True  # expected: SYNTAX_ERROR ("To use any of them as a file name, it must be quoted")
+    v = value_of(fr)
+    if v in ('', '.', '..') or '/' in v or len(v.encode()) > 200:
+        return False
+    if fr[0][0] == 'N' and fr[0][1].startswith('-'):
+        return False
+    return not is_whole_naked_list_ref(fr)
+
+
 GROUP = 10
 
 
@@ -264,7 +282,9 @@ def core_string_items():
         for atoms in itertools.product(ATOMS, repeat=n):
             for fr in splits(atoms):
                 if n < 3:
-                    for ctx in CTXS:
+                    for ctx in CTXS5:
+                        if ctx == 'fname' and not fname_ok(fr):
+                            continue
                         yield {'t': 's', 'fr': fr, 'ctx': ctx, 'v': idx}
                         idx += 1
                     continue
@@ -384,7 +404,7 @@ def core_other_items():
     # reserved words, quoted
     for w in RESERVED:
         for kind in 'SH':
-            for ctx in CTXS:
+            for ctx in CTXS5:
                 yield {'t': 's', 'fr': [[kind, w]], 'ctx': ctx, 'v': v}
                 v += 1
         # and as part of a longer naked token
@@ -404,7 +424,7 @@ def core_error_items():
             if n == 0:
                 cands = [[['S', '']], [['H', '']]]
             for fr in cands:
-                yield {'t': 'unq', 'fr': fr, 'ctx': CTXS[v % 4], 'v': v}
+                yield {'t': 'unq', 'fr': fr, 'ctx': CTXS5[v % 5], 'v': v}
                 v += 1
     # unterminated here-document
     for marker in HERE_MARKERS[:4]:
@@ -418,7 +438,7 @@ def core_error_items():
                 v += 1
     # unquoted reserved words where a string is expected
     for w in RESERVED:
-        for ctx in CTXS:
+        for ctx in CTXS5:
             yield {'t': 's', 'fr': [['N', w]], 'ctx': ctx, 'v': v}
             v += 1
 
@@ -464,6 +484,8 @@ def needs_single(item):
     frs = item['frs'] if t == 'multi' else [item['fr']]
     if any(is_reserved_token(fr) for fr in frs):
         return True
+    if item['ctx'] == 'fname':
+        return has_naked_hash(frs[0])  # S7 cuts the name (collisions) or swallows the next line
     if item['ctx'] in ('file', 'defstr'):
         if starts_with_naked_hash(frs[0]):
             return True
@@ -477,6 +499,7 @@ def needs_single(item):
 
 def cases(tier, seed):
     batch = []
+    names = set()
     weight = [0]
     n_case = [0]
 
@@ -485,6 +508,7 @@ def cases(tier, seed):
             c = {'items': list(batch), 'n': n_case[0]}
             n_case[0] += 1
             del batch[:]
+            names.clear()
             return c
         return None
 
@@ -494,6 +518,12 @@ def cases(tier, seed):
                 n_case[0] += 1
                 yield {'items': [it], 'n': n_case[0], 'single': True}
             else:
+                if it['ctx'] == 'fname':
+                    name = value_of(it['fr'])
+                    if name in names:
+                        weight[0] = 0
+                        yield flush()
+                    names.add(name)
                 batch.append(it)
                 weight[0] += 3 if it['t'] == 'multi' else 1
                 if weight[0] >= BATCH:
@@ -524,7 +554,10 @@ def seeded_items(rng, n):
         if r < 0.62:
             pool = MORE_ATOMS if rng.random() < 0.6 else ATOMS
             fr = _rand_frags(rng, pool, 6)
-            yield {'t': 's', 'fr': fr, 'ctx': rng.choice(CTXS), 'v': v}
+            ctx = rng.choice(CTXS5)
+            if ctx == 'fname' and not (pool is ATOMS and fname_ok(fr)):
+                ctx = 'file'
+            yield {'t': 's', 'fr': fr, 'ctx': ctx, 'v': v}
         elif r < 0.70:
             # several generated strings as neighbours in one list / argv
             frs = [_rand_frags(rng, MORE_ATOMS, 4) for _ in range(rng.randint(2, 5))]
@@ -618,6 +651,25 @@ def render_item(item, k, paths):
             r.error = 'SYNTAX_ERROR'
             pattern += '-reserved'
         val = value_of(fr) if t != 'multi' else None
+
+        if ctx == 'fname':
+            eq = (' = ', '   =   ', '\t= ', ' =\t')[v % 4]
+            if t == 'unq':
+                r.lines = ['file -rel-act %s%sx' % (src, eq)]
+            elif (v // 4) % 5 == 0:
+                r.lines = ['file -rel-act %s%s' % (src, ('', '  ', '\t')[(v // 20) % 3])]  # "file PATH": empty file
+                r.obs = [] if r.error else [('file', val, '')]
+                eq = 'no-contents'
+            else:
+                r.lines = ["file -rel-act %s%s'c%d'" % (src, eq, k)]
+            if t == 'unq' or r.error:
+                r.obs = []
+            elif eq != 'no-contents':
+                r.obs = [('file', val, 'c%d' % k)]
+            r.cls = (ctx, pattern, 'eq%d' % (v % 4) if eq != 'no-contents' else eq)
+            r.feat = feat
+            r.counter = 'c09.file_names_compared'
+            return r
 
         if ctx == 'file' or ctx == 'defstr':
             if t == 'multi':
